@@ -109,6 +109,15 @@ Proof. intros Hne. rewrite !in_app_iff. simpl. split; intros [H|H]; auto. destru
 Definition pm_owner (x : pm_pc) : option cid :=
   match x with PmHandle c | PmAnswer c _ => Some c | _ => None end.
 
+(* the path a caller refers to *)
+Definition c_ref (c : c_pc) : option pid :=
+  match c with
+  | CAtPa p | CWaitPa p | CDone (DPaTerm p) | CDone (DPaTermAns p) => Some p
+  | _ => None
+  end.
+Definition pm_ref (x : pm_pc) : option pid :=
+  match x with PmAnswer _ (RPath p) => Some p | _ => None end.
+
 Definition waiting (x : path_st) : list cid := held x ++ answers (script x).
 
 Record Inv (s : state) : Prop := {
@@ -120,9 +129,11 @@ Record Inv (s : state) : Prop := {
   I_nodup : forall p, NoDup (waiting (paths s p));
   I_script : forall p, ppc (paths s p) <> PaRun -> script (paths s p) = [];
   I_held : forall p, ppc (paths s p) = PaTNotReady \/ ppc (paths s p) = PaDead -> held (paths s p) = [];
-  I_term : forall p, ppc (paths s p) = PaTRemove -> pa_done s p = true;
-  I_term2 : forall p, ppc (paths s p) = PaTHeld \/ ppc (paths s p) = PaTNotReady \/ ppc (paths s p) = PaDead ->
-                      pctx (paths s p) = true;
+  I_term : forall p, ppc (paths s p) <> PaRun -> pa_done s p = true;
+  I_ret : forall c p, callers s c = CDone (DPaTerm p) \/ callers s c = CDone (DPaTermAns p) -> pa_done s p = true;
+  I_ref : forall c p, c_ref (callers s c) = Some p -> p < np s;
+  I_pmref : forall p, pm_ref (pm s) = Some p -> p < np s;
+  I_retpm : forall c, callers s c = CDone DPmTerm -> pm_ctx s = true;
   I_pmwait : forall p ps, pm s = PmWait p ps -> pctx (paths s p) = true;
   I_done : pm s = PmDone -> pm_ctx s = true;
   I_cl : pm_ctx s = true <-> closer s <> ClIdle;
@@ -148,7 +159,7 @@ Ltac step_inv H :=
 Ltac simp_state :=
   unfold set_pm, set_caller, set_path, pa_done, pa_escape, waiting, new_path, is_dead in *;
   cbn [pm_ctx pm np paths nc callers closer ppc pctx held script with_pc with_ctx with_script with_held
-       answers pm_calls app pm_owner] in *.
+       answers pm_calls app pm_owner c_ref pm_ref] in *.
 
 Ltac upd_cases :=
   unfold upd in *;
@@ -158,7 +169,7 @@ Ltac upd_cases :=
          end.
 
 Ltac easy_fields HI :=
-  destruct HI as [Hnc Hnc2 Hnp Hpmh Hwait Hnodup Hscript Hheld Hterm Hterm2 Hpmwait Hdone Hcl].
+  destruct HI as [Hnc Hnc2 Hnp Hpmh Hwait Hnodup Hscript Hheld Hterm Hret Href Hpmref Hretpm Hpmwait Hdone Hcl].
 
 Ltac rew_pm :=
   repeat match goal with
@@ -204,7 +215,13 @@ Ltac auto_inv0 :=
   rew_pm;
   constructor; simp_state; rew_pm; simp_state; intros; upd_cases; simp_state; eauto; try lia; try congruence;
   use_bounds; try iff_solve; try solve [intuition congruence];
-  try (match goal with Hscript : forall p, ppc _ <> PaRun -> _ |- script _ = [] => apply Hscript; congruence end).
+  try (match goal with Hscript : forall p, ppc _ <> PaRun -> _ |- script _ = [] => apply Hscript; congruence end);
+  try (match goal with Hterm : forall p, ppc _ <> PaRun -> _ = true |- _ || _ = true => apply Hterm; congruence end);
+  try (match goal with |- _ < S _ => apply Nat.lt_lt_succ_r; solve [eauto] end);
+  try (match goal with
+       | Href : forall c p, c_ref (callers ?s c) = Some p -> p < np ?s, Hc : callers ?s ?c = _ |- ?p < np ?s =>
+           apply (Href c); rewrite Hc; simp_state; congruence
+       end).
 
 Ltac auto_inv HI := easy_fields HI; auto_inv0.
 
@@ -217,6 +234,8 @@ Proof.
   - apply Hnc2; lia.
   - split; [discriminate|]. intros Hx. apply Hpmh in Hx. congruence.
   - split; [discriminate|]. intros Hx. apply Hwait in Hx. congruence.
+  - destruct H; discriminate.
+  - discriminate.
 Qed.
 
 Lemma inv_cancel esc s s' : Inv s -> step esc s LCancel = Some s' -> Inv s'.
@@ -228,9 +247,13 @@ Proof. intros HI H. simpl in H. step_inv H. all: auto_inv HI. Qed.
 Lemma inv_pmhandled esc s h s' : Inv s -> step esc s (LPmHandled h) = Some s' -> Inv s'.
 Proof.
   intros HI H. simpl in H. step_inv H. all: auto_inv HI.
+  - injection H as <-. now apply Nat.ltb_lt.
   - apply Hwait in Hx. rewrite (Hnp (np s)) in Hx by lia. destruct Hx.
   - rewrite Heql in Hx. destruct Hx.
   - rewrite Heql. constructor.
+  - exfalso. assert (Hlt : np s < np s); [|lia].
+    destruct H as [H|H]; apply (Href c0); rewrite H; reflexivity.
+  - injection H as <-. lia.
 Qed.
 
 Lemma inv_pmans esc s  s' : Inv s -> step esc s (LPmAns) = Some s' -> Inv s'.
@@ -556,7 +579,7 @@ Proof.
   - destruct (Hq p) as [[Hpc [Hsc Hd]]|Hdead].
     + exists (LPaRecv c []). eexists. split; [reflexivity|]. simpl. rewrite Ec, Hpc, Hsc. reflexivity.
     + assert (Hd : pa_done s p = true).
-      { unfold pa_done. rewrite (I_term2 s HI p) by auto. apply orb_true_r. }
+      { apply (I_term s HI). congruence. }
       exists (LCEscPa c). eexists. split; [reflexivity|]. simpl. rewrite Ec, Hd. reflexivity.
   - exfalso. apply Hnq. apply (I_wait s HI) in Ec. unfold waiting in Ec.
     destruct (Hq p) as [[Hpc [Hsc Hd]]|Hdead].
@@ -623,3 +646,137 @@ Proof.
       * apply all_callers_quiet; auto.
       * unfold cl_quiet. congruence.
 Qed.
+
+(* ---- consequences -------------------------------------------------------------------------------------------------- *)
+
+Definition all_internal (ls : list label) : bool := forallb internal ls.
+
+(* every schedule of internal steps is finite: at most `measure s` steps *)
+Lemma internal_run_bounded ls : forall s s',
+  Inv s -> all_internal ls = true -> run true s ls = Some s' -> length ls + measure s' <= measure s.
+Proof.
+  induction ls as [|l r IH]; simpl; intros s s' HI Hint H.
+  - injection H as <-. lia.
+  - apply andb_true_iff in Hint. destruct Hint as [Hl Hr].
+    destruct (step true s l) as [s1|] eqn:E; [|discriminate].
+    pose proof (measure_step true s l s1 HI Hl E) as Hm.
+    specialize (IH s1 s' (inv_step true s l s1 HI E) Hr H). lia.
+Qed.
+
+(* ... and some schedule of internal steps reaches a quiescent state *)
+Lemma quiesces_aux n : forall s, measure s <= n -> Inv s ->
+  exists ls s', all_internal ls = true /\ run true s ls = Some s' /\ quiescent s'.
+Proof.
+  induction n as [|n IH]; intros s Hm HI.
+  - destruct (progress s HI) as [Hq|[l [s1 [Hl E]]]].
+    + exists [], s. split; [reflexivity|split; [reflexivity|exact Hq]].
+    + pose proof (measure_step true s l s1 HI Hl E). lia.
+  - destruct (progress s HI) as [Hq|[l [s1 [Hl E]]]].
+    + exists [], s. split; [reflexivity|split; [reflexivity|exact Hq]].
+    + pose proof (measure_step true s l s1 HI Hl E) as Hlt.
+      destruct (IH s1) as [ls [s' [Hi [Hr Hq]]]]; [lia|eapply inv_step; eauto|].
+      exists (l :: ls), s'. split; [|split; [|exact Hq]].
+      * simpl. now rewrite Hl, Hi.
+      * simpl. now rewrite E.
+Qed.
+
+Lemma quiesces s : Inv s ->
+  exists ls s', all_internal ls = true /\ run true s ls = Some s' /\ quiescent s' /\ length ls <= measure s.
+Proof.
+  intros HI. destruct (quiesces_aux (measure s) s (le_n _) HI) as [ls [s' [Hi [Hr Hq]]]].
+  exists ls, s'. split; [exact Hi|split; [exact Hr|split; [exact Hq|]]].
+  pose proof (internal_run_bounded ls s s' HI Hi Hr). lia.
+Qed.
+
+Lemma quiescent_shutdown s : Inv s -> quiescent s -> pm_ctx s = true -> all_terminated s.
+Proof.
+  intros HI [Hpm [Hpa [Hc Hcl]]] Hctx.
+  assert (Hdead : forall p, ppc (paths s p) = PaDead).
+  { intros p. destruct (Hpa p) as [[_ [_ Hd]]|Hd]; [|exact Hd]. unfold pa_done in Hd. rewrite Hctx in Hd. discriminate. }
+  repeat split.
+  - destruct Hpm as [[_ H]|H]; [congruence|exact H].
+  - exact Hdead.
+  - intros c Hlt. specialize (Hc c). unfold c_quiet in Hc. pose proof (I_nc2 s HI c Hlt) as Hne.
+    destruct (callers s c) eqn:Ec; try contradiction; try congruence.
+    + rewrite (I_held s HI p) in Hc by auto. destruct Hc.
+    + eauto.
+  - unfold cl_quiet in Hcl. apply (I_cl s HI) in Hctx. destruct (closer s); congruence.
+Qed.
+
+Lemma step_nc esc s l s' : step esc s l = Some s' -> nc s <= nc s'.
+Proof. intros H. destruct l; simpl in H; step_inv H; simpl; lia. Qed.
+
+Lemma run_nc esc ls : forall s s', run esc s ls = Some s' -> nc s <= nc s'.
+Proof.
+  induction ls as [|l r IH]; simpl; intros s s' H.
+  - injection H as <-. lia.
+  - destruct (step esc s l) eqn:E; [|discriminate]. apply step_nc in E. apply IH in H. lia.
+Qed.
+
+Lemma step_pm_ctx esc s l s' : step esc s l = Some s' -> pm_ctx s = true -> pm_ctx s' = true.
+Proof. intros H Hc. destruct l; simpl in H; step_inv H; simpl; auto. Qed.
+
+Lemma run_pm_ctx esc ls : forall s s', run esc s ls = Some s' -> pm_ctx s = true -> pm_ctx s' = true.
+Proof.
+  induction ls as [|l r IH]; simpl; intros s s' H Hc.
+  - now injection H as <-.
+  - destruct (step esc s l) eqn:E; [|discriminate]. eapply IH; eauto. eapply step_pm_ctx; eauto.
+Qed.
+
+(* shutdown: pathManager.close() (if not called yet) followed by internal steps only *)
+Definition shutdown_labels (s : state) : list label := match closer s with ClIdle => [LCancel] | _ => [] end.
+
+Lemma shutdown_from_ctx s : Inv s -> pm_ctx s = true ->
+  exists ls s', all_internal ls = true /\ run true s ls = Some s' /\ all_terminated s'.
+Proof.
+  intros HI Hctx. destruct (quiesces s HI) as [ls [s' [Hi [Hr [Hq _]]]]].
+  exists ls, s'. split; [exact Hi|split; [exact Hr|]].
+  apply quiescent_shutdown; auto; [eapply inv_run; eauto|eapply run_pm_ctx; eauto].
+Qed.
+
+Lemma shutdown_completes s : Inv s ->
+  exists ls s', all_internal ls = true /\ run true s (shutdown_labels s ++ ls) = Some s' /\ all_terminated s'.
+Proof.
+  intros HI. unfold shutdown_labels. destruct (closer s) eqn:Ecl.
+  - destruct (step true s LCancel) as [s1|] eqn:E; [|simpl in E; rewrite Ecl in E; discriminate].
+    pose proof (inv_step true s LCancel s1 HI E) as HI1.
+    assert (Hctx : pm_ctx s1 = true) by (simpl in E; rewrite Ecl in E; injection E as <-; reflexivity).
+    destruct (shutdown_from_ctx s1 HI1 Hctx) as [ls [s' [Hi [Hr Ht]]]].
+    exists ls, s'. split; [exact Hi|split; [|exact Ht]].
+    cbn [app run]. rewrite E. exact Hr.
+  - apply shutdown_from_ctx; auto. apply (I_cl s HI); congruence.
+  - apply shutdown_from_ctx; auto. apply (I_cl s HI); congruence.
+Qed.
+
+(* a started call returns: after shutdown, and, unless it is a request on hold, already without it *)
+Lemma every_call_returns s c : Inv s -> c < nc s ->
+  exists ls s' r, all_internal ls = true /\ run true s (shutdown_labels s ++ ls) = Some s' /\ callers s' c = CDone r.
+Proof.
+  intros HI Hc. destruct (shutdown_completes s HI) as [ls [s' [Hi [Hr Ht]]]].
+  destruct Ht as [_ [_ [Hall _]]].
+  destruct (Hall c) as [r Hr']; [pose proof (run_nc _ _ _ _ Hr); lia|].
+  exists ls, s', r. auto.
+Qed.
+
+(* pctx of an existing path is only ever set by pa.close() in doClosePath *)
+Lemma pctx_frame esc s l s' p :
+  step esc s l = Some s' -> l <> LPmCloseHd -> p < np s -> pctx (paths s' p) = pctx (paths s p).
+Proof.
+  intros H Hl Hp. destruct l; simpl in H; step_inv H; try congruence; simp_state; unfold upd;
+    try (destruct (Nat.eqb_spec p (np s)); [lia|reflexivity]);
+    repeat match goal with |- context [Nat.eqb ?a ?b] => destruct (Nat.eqb_spec a b); subst end; reflexivity.
+Qed.
+
+Lemma terminated_needs_ctx s c : Inv s ->
+  match callers s c with
+  | CDone DPmTerm => pm_ctx s = true
+  | CDone (DPaTerm p) | CDone (DPaTermAns p) => pm_ctx s = true \/ pctx (paths s p) = true
+  | _ => True
+  end.
+Proof.
+  intros HI. destruct (callers s c) as [| | | | |[]] eqn:Ec; auto.
+  - apply (I_retpm s HI c Ec).
+  - apply orb_true_iff. apply (I_ret s HI c p). auto.
+  - apply orb_true_iff. apply (I_ret s HI c p). auto.
+Qed.
+
